@@ -1,6 +1,7 @@
 import LyModel.Val.DrvBase
 import LyModel.Val.DrvDt
 import LyModel.Val.DrvHex
+import LyModel.Val.DrvInst
 import LyModel.Val.DrvU
 /-! driver ops of component `val`: dispatch on the type descriptor (first argument) -/
 namespace LyModel.Val.Drv
@@ -12,6 +13,7 @@ def handle (op : String) (args : List String) : String :=
   | d :: _ =>
     if d == "t:ietf-yang-types:date-and-time" then DrvDt.handle op args
     else if DrvHex.isDesc d then DrvHex.handle op args
+    else if DrvInst.isDesc d then DrvInst.handle op args
     else if d.startsWith "U(" || d.startsWith "pstr:" || d.startsWith "idref:" then DrvU.handle op args
     else handleBase op args
   | [] => handleBase op args
